@@ -14,6 +14,7 @@ RULE = ('well-formed trees: bounded-exhaustive small trees (as C02) under defaul
         'random trees (deep nesting to 25, concept-less nodes with edges, inverted re-entrancies, '
         'several closes on one triple) under default, AMR, mini-AMR, random tables; every decoded '
         'graph is also stripped of its markers for the no-raise clause. Non-trivial: >=2 nodes.')
+PROBES = {'C17': 40}
 ANCHORS = ['penman.layout:node_contexts', 'penman.layout:appears_inverted',
            'penman.layout:get_pushed_variable']
 MIN_EVAL = {'quick': 3000, 'thorough': 100000}
